@@ -49,6 +49,8 @@ func runC08(c *Ctx) {
 	c05KeywordLookup(c, "C08.13")
 	ruleLogLengthBound(c, "C08.14")
 	ruleRawReadOnBuffer(c, "C08.15", "storage.(*Tuple).Decode", "storage.(*Relation).Decode")
+	ruleErrorsNotDropped(c, "C08.16", "storage.(*BTree).insert", "storage.(*RelationService).Insert")
+	ruleVendoredEqualsUpstream(c, "C08.17", vendoredScanner)
 }
 
 // ---- C08.1 -----------------------------------------------------------------
